@@ -184,6 +184,15 @@ func H_C06_History2() {
 		k = keyed.NewKeyed[int, int](ctor)
 	}
 	m := &keyModel{delay: delay}
+	init := vrt.Int("init", 0, 2)
+	if init >= 1 {
+		k.SetKey(1, false)
+		m.request(1)
+	}
+	if init >= 2 {
+		k.SetKey(2, false)
+		m.request(2)
+	}
 	ops := [2]int{vrt.Int("op0", 0, 7), vrt.Int("op1", 0, 7)}
 	for i := 0; i < 2; i++ {
 		keyedOp(k, m, ops[i])
